@@ -3,7 +3,7 @@ from __future__ import annotations
 
 import z3
 
-from pyvc.engine import (B, I, LambdaV, ediv, BoolV, BytesV, FileV, IntV, ListV, LoopSpec, NoneV, ObjV, OptV, SeqV, StrV, TupleV,
+from pyvc.engine import (B, I, LambdaV, OpaqueV, SetListV, ediv, BoolV, BytesV, FileV, IntV, ListV, LoopSpec, NoneV, ObjV, OptV, SeqV, StrV, TupleV,
                          Unsupported, fresh, zmax, zmin)
 from pyvc.discharge import register_opaque
 from pyvc.model import FnContract, Model
